@@ -22,7 +22,9 @@ META = dict(
          "count, workers, what each mapper does: write 0-2 values / cancel(err) / cancel(nil) / panic / panic only after "
          "the call returned; what the reducer does: read the pipe to its end or stop after j values, write 0-2 results, "
          "then return / panic / cancel; generator normal or panicking after k items; context background / done before / "
-         "done during), the SET of results the statement allows (value, ErrReduceNoOutput, the cancel error or "
+         "done during; the kind of VALUE the mappers and the reducer write - distinct ordinary values, the untyped nil, a typed "
+         "nil pointer, 0, \"\", false - is a further dimension of the cases on which the contract does not depend: one write "
+         "of nil is one write), the SET of results the statement allows (value, ErrReduceNoOutput, the cancel error or "
          "ErrCancelWithNil, DeadlineExceeded, the re-raised panic; where causes race, the union) and the exactly-once "
          "obligations. spec/MRPipeline.tla models lib/mr/mapreduce.go one channel / atomic / once operation per step "
          "(source, collector, output, done, panicChan + CAS, pool tokens, WaitGroup, failed flag, the two sync.Once, the "
@@ -50,8 +52,12 @@ META = dict(
          "model (n <= 3, workers <= 2, one step per channel operation, goroutine start-up order free). The contract is a "
          "set wherever the statement lets causes race; exactly-once and the worker bound are judged only in scenarios "
          "without any cancel / panic / context ('without cancellation'). Not modelled: user functions that block for "
-         "ever, a MapReduceChan source that is never closed, more than two reducer writes, nested MapReduce calls. The "
-         "design's MRTrace (MRPipeline with silent channel steps) is replaced by the cheaper contract-level acceptor. On "
+         "ever, a MapReduceChan source that is never closed, more than two reducer writes, nested MapReduce calls. "
+         "Non-ordinary values (nil, typed nil, zero values) are indistinguishable from each other, so the recording pass / "
+         "trace acceptor uses only the scenarios with distinct ordinary values, and the mechanism model carries no values. The "
+         "design's MRTrace (MRPipeline with silent channel steps) is replaced by the cheaper contract-level acceptor; a "
+         "recorded history it rejects at the ret event because the caller re-raised 'send on closed channel' carries the "
+         "driver's key for that outcome (C07:result:send-on-closed-output), every other rejection C07:trace:<event>. On "
          "a tree with a defect, scenarios of a signature that already failed VERIF_FAILCAP times in a driver process are "
          "skipped (nothing is skipped on a conforming tree). Findings, all reproduced on the real code. Fixed by ea11f3e: "
          "blocking onceChan.write left goroutines for ever when a panic followed a return through cancel / context / "
@@ -68,7 +74,8 @@ META = dict(
 
 FINISH = dict(rule="cases = complete TLC enumeration of the scenario families of MRContract.tla (every function from items "
                    "to mapper behaviours x reducer behaviour x generator behaviour x context x workers x entry point, "
-                   "filtered by Applicable/WellFormed); every case is executed VERIF_REPS times per GOMAXPROCS setting; "
+                   "filtered by Applicable/WellFormed; the families without causes and a family with cancel / panic once more "
+                   "for every non-ordinary kind of written value); every case is executed VERIF_REPS times per GOMAXPROCS setting; "
                    "steps = executions; a case fails at its first execution that disagrees")
 
 
@@ -176,13 +183,14 @@ def mc(ctx):
 
 # ------------------------------------------------------------------------------------------- scenario generation
 VALFAMS = None  # set below (needs fam/fams)
+VALS = ("nil", "typednil", "zero-int", "zero-str", "false")  # MRContract!ValueKinds without "ord"
 
 
 def gen(ctx, name, families):
     # + the directed scenarios (ordering established by the driver before the reducer writes), see MRContract!Directed
     # + the value dimension: the families VALFAMS once more for every non-ordinary kind of written value
     K = dict(Fams=families, Orders='{"cancel-before-write","ctx-before-write","workers-held"}', ValFams=VALFAMS,
-             Vals='{"nil","typednil","zero-int","zero-str","false"}')
+             Vals="{" + ",".join('"%s"' % v for v in VALS) + "}")
     cfg = core.render_cfg(spec="GSpec", constants=K, invariants=["Emit", "SaneInv"])
     r = ctx.tlc("MRContractGen", cfg, constants=K, name=name, workers=4, timeout=900)
     return r.printed
@@ -226,6 +234,28 @@ def run_driver(ctx, binp, path, label, reps, gmp, shards=16):
                                GORACE="exitcode=0 log_path=" + racelog))
 
 
+def classify_rejected_results(ctx):
+    """The acceptor MRTrace judges the recorded `ret` event against the history's `allowed` set, i.e. the same result
+    membership the driver judges in the replay passes.  A history rejected AT its ret event BECAUSE the outcome is not
+    allowed gets the class key the driver gives that outcome (mr_test.go, "---- result"), so that one behaviour of the
+    code has one key whichever binding direction observed it.  Only the class both sides know is renamed (the caller
+    re-raising the runtime error of a send on the closed output channel); everything else keeps C07:trace:<event>."""
+    for d in ctx.disagreements:
+        if d.get("source") != "trace" or d.get("key") != "C07:trace:ret" or not d.get("case"):
+            continue
+        try:
+            seg = [json.loads(x) for x in json.loads(d["case"])]
+            ev = seg[d["step"]]
+            allowed = [(a["kind"], a["val"]) for a in seg[0]["allowed"]]
+        except Exception:
+            continue
+        if ev.get("e") != "ret" or (ev.get("kind"), ev.get("val")) in allowed:
+            continue  # rejected for another conjunct of MRTrace!Ret (ordering knowledge): stays a trace key
+        if ev["kind"] == "panic" and "send on closed channel" in str(ev["val"]):
+            d["key"] = "C07:result:send-on-closed-output"
+            d["msg"] += " [result class of the driver: the outcome is not in the allowed set]"
+
+
 def run(ctx):
     mc(ctx)
     cases = scenario_cases(ctx)
@@ -260,6 +290,7 @@ def run(ctx):
                                        name="trace", timeout=900, describe=describe, heap="6g")
         ctx.notes["histories_accepted"] = acc
         ctx.notes["histories_rejected"] = rej
+        classify_rejected_results(ctx)
     # vacuity guards on the driver's own counters
     c = ctx.counters
     tot = lambda k: sum(v for kk, v in c.items() if kk.endswith("." + k))
@@ -267,6 +298,12 @@ def run(ctx):
         for k in ("result.ret", "result.err", "result.panic", "leakchecks", "exactly_once_checks", "maxrunning_2"):
             if tot(k) == 0:
                 raise core.Infra("vacuous driver run: counter %s is 0" % k)
+        # ... and on the value dimension: for every non-ordinary kind of value, a call returned exactly the reducer's
+        # single write with a nil error, and mapper writes of that kind were matched against what the reducer received
+        for v in VALS:
+            for k in ("value.%s.returned" % v, "value.%s.delivered" % v):
+                if tot(k) == 0:
+                    raise core.Infra("vacuous driver run: counter %s is 0" % k)
     # only on a tree that (again) has the pre-fix leak: do the real stacks show the blocked state of lead (a)?
     # (the leak itself is then a violation reported by the driver; this is an additional note, never an error)
     want = ctx.notes.get("model_blocked_state_before_fix", {}).get("mapreduce_go_lines_before_ea11f3e")
